@@ -437,7 +437,14 @@ async fn main() {
     }
     // program panics are caught by the runtime wrapper; keep them quiet, but show harness panics
     std::panic::set_hook(Box::new(|i| {
-        let loc = i.location().map(|l| l.file().to_string()).unwrap_or_default();
+        let loc = i.location().map(|l| format!("{}:{}", l.file(), l.line())).unwrap_or_default();
+        let msg = i.payload().downcast_ref::<&str>().map(|s| s.to_string()).or_else(|| i.payload().downcast_ref::<String>().cloned()).unwrap_or_default();
+        // first frame that belongs to the program under test (symbol names survive without debug info)
+        let bt = std::backtrace::Backtrace::force_capture().to_string();
+        let frame = bt.lines().map(|l| l.trim()).find(|l| (l.contains("marginfi::") || l.contains("marginfi_type_crate::") || l.contains("_mocks::")) && !l.contains("rig1::")).map(|l| l.splitn(2, ": ").nth(1).unwrap_or(l).to_string()).unwrap_or_default();
+        let short_loc = loc.rsplit("/registry/src/").next().map(|x| x.splitn(2, '/').nth(1).unwrap_or(x).to_string()).unwrap_or(loc.clone());
+        let short_msg: String = msg.chars().take(60).collect();
+        *tap::LAST_PANIC.lock().unwrap() = Some(format!("{} | {} | {}", short_msg, short_loc, frame));
         if std::env::var("VERIF_ALL_PANICS").is_ok() || loc.contains("/verif/") || loc.starts_with("rig") || loc.starts_with("vcommon") {
             eprintln!("HARNESS PANIC: {}", i);
         }
@@ -512,6 +519,11 @@ async fn main() {
     rej.sort();
     for ((k, c), n) in rej {
         m.r.add(&format!("ix_rejected/{}/{}", k.name(), c), *n);
+    }
+    let mut ps: Vec<_> = m.panic_sites.iter().collect();
+    ps.sort();
+    for ((k, site), n) in ps {
+        m.r.add(&format!("program_panic/{}/{}", k.name(), site), *n);
     }
     m.r.add("tx_committed", m.tx_committed);
     m.r.add("tx_rejected", m.tx_rejected);
